@@ -325,8 +325,8 @@ def replay(ctx, payload):
         print("instance %r not found" % fi.get("instance"))
         return 2
     name = fi.get("instance", "")
-    if name.startswith("Burst2Beat/aw12/caps="):
-        caps = tuple(int(c) for c in name.split("=")[1])
+    if name.startswith("Burst2Beat/aw12/caps=") or name.startswith("corpus/"):
+        caps = tuple(int(c) for c in name.split("=")[1]) if "=" in name else ALL
         inst = B2BInst(name, aw=12, caps=caps)
         from explore import replay_with_monitor
         r = replay_with_monitor(inst, [tuple(l) for l in fi.get("trace", [])])
